@@ -277,7 +277,7 @@ func snapPostRun(r *Run, res *Result) {
 		}
 	}
 	pick[largest] = true
-	if withDel >= 0 {
+	if withDel >= 0 && (thorough || !r.p.NoMerge) {
 		pick[withDel] = true
 		res.Stats.Probes["damaged-snapshot-with-deleted-bitmap"]++
 	}
